@@ -23,6 +23,20 @@ STREAM_READ = 'model::link::Stream::<S>::read'
 STREAM_READ_EXACT = 'model::link::Stream::<S>::read_exact'
 
 
+def subst_expr(e, target, repl, depth=0):
+    """replace every occurrence of the sub-expression `target` in e"""
+    if e == target:
+        return repl
+    if depth > 40 or not isinstance(e, tuple):
+        return e
+    return tuple(subst_expr(x, target, repl, depth + 1) if isinstance(x, tuple) else x for x in e)
+
+
+def fmt_set(s_):
+    s_ = sorted(s_)
+    return '{' + ', '.join('0x%02x' % x for x in s_[:12]) + (', ... %d values' % len(s_) if len(s_) > 12 else '') + '}'
+
+
 def is_zero_test(e, target):
     """e is Eq(target, 0) / Ne(target,0) -> returns 'eq'/'ne' else None"""
     e = strip(e)
@@ -242,6 +256,43 @@ def run(ctx):
                 ctx.check(not var, 'R13.3', 'read:err:%d' % path[-3] if len(path) > 2 else 'read:err',
                           'length-below-header branch returns Err without reading a payload', where(rd, lt[-1][1]),
                           'tpkt::Client::read reads a payload on the path that rejects a too-short declared length')
+    # R13.6 frame kind dispatch as a function of the first byte (finite domain: all 256 values folded statically)
+    accept = {'Raw': set(), 'FastPath': set()}
+    n_disp = 0
+    for path in enum_paths(rd):
+        st = run_path(rd, path)
+        if ret_kind(st.env.get(0)) != 'ok':
+            continue
+        okv = strip(st.env.get(0))
+        payload = strip(okv[3][0]) if okv[0] == 'agg' else ('unknown',)
+        kind = payload[2] if payload[0] == 'agg' else '?'
+        first = None
+        for br in path_branches(st):
+            for n in walk(resolve(st, br[2])):
+                if n[0] == 'mutated' and n[1] == '<u8 as model::data::Message>::read' and (first is None or n[2] < first[2]):
+                    first = n
+        if first is None or kind not in accept:
+            continue
+        n_disp += 1
+        for b in range(256):
+            ok = True
+            for br in path_branches(st):
+                e = fold(subst_expr(resolve(st, br[2]), first, ('const', b, str(b))))
+                if e[0] == 'const' and e[1] is not None and strip(br[2])[0] == 'bin':
+                    if bool(e[1]) != branch_truth(br):
+                        ok = False
+                        break
+            if ok:
+                accept[kind].add(b)
+    fp_must = {b for b in range(256) if b & 3 == 0}
+    ctx.check(accept['Raw'] == {3}, 'R13.6', 'dispatch:tpkt', 'a frame is deframed as TPKT exactly when its first byte is the TPKT version 3', rd.where(),
+              'tpkt::Client::read deframes as TPKT the frames whose first byte is in %s; only version byte 3 is a TPKT frame (T.123 section 8)'
+              % fmt_set(accept['Raw']))
+    ctx.check(fp_must <= accept['FastPath'] and 3 not in accept['FastPath'], 'R13.6', 'dispatch:fastpath',
+              'every first byte with action bits 00 (any security flags / reserved bits) is deframed as fast-path', rd.where(),
+              'tpkt::Client::read does not deframe as fast-path the first bytes %s although their action bits are FASTPATH (MS-RDPBCGR 2.2.9.1.2: '
+              'action = bits 1..0, flags = bits 7..6)' % fmt_set(fp_must - accept['FastPath']))
+    ctx.floor('R13.6', 'Ok paths whose kind depends on the first byte', n_disp, 3)
     ctx.floor('R13.2', 'Ok paths of tpkt::Client::read (slow path, fast path long, fast path short)', n_okp, 3)
     ctx.floor('R13.3', 'rejecting paths (declared length shorter than header)', n_guard_err, 3)
     ctx.check(kinds >= {'Raw', 'FastPath'}, 'R13.2', 'read:kinds', 'both payload kinds (Raw, FastPath) are produced', rd.where())
